@@ -1810,7 +1810,7 @@ package resolve
 //@   trusted writes the "undefined" member into the rendered input (httpclient convention); external to the key
 
 //@ func Loader.prepareEntityFetch
-//@   requires l != nil && l.ctx != nil && fetch != nil && prepared != nil && res != nil
+//@   requires l != nil && l.ctx != nil && prepared != nil && res != nil
 //@   ghost var g_keyed bool = false
 //@   ghost var g_keyArr int = 0
 //@   ghost var g_keyLen int = 0
@@ -1822,7 +1822,7 @@ package resolve
 //@   safety none
 
 //@ func Loader.prepareBatchEntityFetch
-//@   requires l != nil && l.ctx != nil && fetch != nil && prepared != nil && res != nil
+//@   requires l != nil && l.ctx != nil && prepared != nil && res != nil
 //@   ghost var g_keyed bool = false
 //@   ghost var g_keyArr int = 0
 //@   ghost var g_keyLen int = 0
